@@ -12,19 +12,26 @@
 (*   internal/config/config.go merge, cmd/taskctl (--set), runner.go vars, stage.go      *)
 (* Dir levels: stage, task (rendered), context, start directory.                        *)
 (* Negative controls: PinnedEnv (duplicates resolved by sorting NAME=value),             *)
-(* PinnedVars (configuration variables dropped; stage variables replace task variables). *)
+(* PinnedVars (configuration variables dropped; stage variables replace task variables), *)
+(* EmptyYields (a merge that lets an EMPTY value yield to the value underneath it).      *)
+(* Values: a defined value is a positive number; Empty stands for the empty string, which *)
+(* is a value like any other ("regardless of the values involved"): in the third value    *)
+(* order, "empty", the highest effective level gives the name the empty value.            *)
 EXTENDS Naturals, Sequences, FiniteSets, TLC
 CONSTANTS PinnedEnv, PinnedVars,
-          Accumulate      \* negative control: a variation's values stay in the environment of later variations
+          Accumulate,     \* negative control: a variation's values stay in the environment of later variations
+          EmptyYields     \* negative control: merging skips empty values when the name is already defined
 VARIABLES kind, defs, ord, mode
 vars == <<kind, defs, ord, mode>>
 No == 0
-Over(a, b) == IF b # No THEN b ELSE a            \* variables.Merge for one name: the argument wins
+Empty == 100                                     \* the empty string: defined, and sorts below every other value
+\* variables.Merge for one name: the argument wins (whatever its value)
+Over(a, b) == IF b # No /\ ~(EmptyYields /\ b = Empty /\ a # No) THEN b ELSE a
 Max(S) == CHOOSE x \in S : \A y \in S : y <= x
 
 Init == /\ kind \in {"env", "var", "dir"}
         /\ mode \in {"direct", "stage"}
-        /\ ord \in {"asc", "desc"}
+        /\ ord \in (IF kind = "dir" THEN {"asc", "desc"} ELSE {"asc", "desc", "empty"})
         /\ defs \in CASE kind = "env" -> (SUBSET (1..6)) \ {{}}
                       [] kind = "var" -> (SUBSET (1..4)) \ {{}}
                       [] OTHER -> SUBSET (1..3)            \* dir: 1 context, 2 task, 3 stage
@@ -36,8 +43,10 @@ StageLevel == CASE kind = "env" -> 5 [] kind = "var" -> 4 [] OTHER -> 3
 Eff == IF mode = "direct" THEN defs \ {StageLevel} ELSE defs
 \* the value given at level l: ascending or descending with the level, so that a higher level's
 \* value sorts both above and below a lower level's
-Val(l) == IF ord = "asc" THEN l ELSE Top + 1 - l
+EmptyLevel == IF ord = "empty" /\ Eff # {} THEN Max(Eff) ELSE 0      \* the level that gives the empty value
+Val(l) == IF l = EmptyLevel THEN Empty ELSE IF ord = "desc" THEN Top + 1 - l ELSE l
 Def(l) == IF l \in Eff THEN Val(l) ELSE No
+Gt(a, b) == a # Empty /\ (b = Empty \/ a > b)                          \* order of the NAME=value strings
 
 \* intended
 Resolve == IF Eff = {} THEN No ELSE Val(Max(Eff))
@@ -52,7 +61,7 @@ StageTaskEnv == IF mode = "stage" THEN Over(TaskEnv, Def(5)) ELSE TaskEnv
 JobEnv == Over(Over(Def(2), StageTaskEnv), Def(6))
 ImplEnv == IF PinnedEnv
              THEN (IF Def(1) = No THEN JobEnv ELSE IF JobEnv = No THEN Def(1)
-                   ELSE IF Def(1) > JobEnv THEN Def(1) ELSE JobEnv)      \* sort NAME=value, keep the last
+                   ELSE IF Gt(Def(1), JobEnv) THEN Def(1) ELSE JobEnv)      \* sort NAME=value, keep the last
              ELSE Over(Def(1), JobEnv)
 \* --- template variables ---
 CfgVars == IF PinnedVars THEN No ELSE Def(1)
